@@ -1679,7 +1679,7 @@ int yr_execute_code(YR_SCAN_CONTEXT* context)
         if (is_undef(r2) || count == 0)
           r1.i = YR_UNDEFINED;
         else
-          r1.i = (((double) found / count) * 100) >= r2.i ? 1 : 0;
+          r1.i = (((double) found * 100) / count) >= r2.i ? 1 : 0;
       }
 
       push(r1);
